@@ -210,10 +210,22 @@ Definition event_eqb (a b : event) : bool :=
 Definition gran_eqb (a b : gran) : bool :=
   match a, b with GRow, GRow | GStmt, GStmt => true | _, _ => false end.
 
+(** the event comparison of Catalog::get_triggers_for_table: UPDATE events match when either side has no column list
+    or the two lists share a column (the UPDATE executor looks triggers up with the assigned columns); every other
+    pair by equality *)
+Definition event_match (have want : event) : bool :=
+  match have, want with
+  | EvUpdate None, EvUpdate _ => true
+  | EvUpdate _, EvUpdate None => true
+  | EvUpdate (Some monitored), EvUpdate (Some assigned) =>
+      existsb (fun m => existsb (Nat.eqb m) assigned) monitored
+  | _, _ => event_eqb have want
+  end.
+
 (** Catalog::get_triggers_for_table(table, Some(event)): iteration order of the catalog's trigger map (the model's
-    [trigs] list is given in that order), filtered by table name and *whole-event* equality. *)
+    [trigs] list is given in that order), filtered by table name and [event_match]. *)
 Definition triggers_for_table (trigs : list trig) (t : nat) (ev : event) : list trig :=
-  filter (fun tr => Nat.eqb (t_table tr) t && event_eqb (t_event tr) ev) trigs.
+  filter (fun tr => Nat.eqb (t_table tr) t && event_match (t_event tr) ev) trigs.
 
 (** TriggerFirer::find_triggers *)
 Definition find_triggers (trigs : list trig) (t : nat) (tm : timing) (ev : event) : list trig :=
@@ -242,17 +254,15 @@ Definition row_triggers (trigs : list trig) (t : nat) (tm : timing) (ev : event)
 Definition stmt_triggers (trigs : list trig) (t : nat) (tm : timing) (ev : event) : list trig :=
   filter (fun tr => gran_eqb (t_gran tr) GStmt) (find_triggers trigs t tm ev).
 
-(** TriggerFirer::evaluate_when_condition: [None] = error (no row context, evaluation error, non-boolean value) *)
+(** TriggerFirer::evaluate_when_condition: [None] = error (evaluation error, non-boolean value) *)
 Definition eval_when (c : cond) (o n : option row) : option bool :=
-  match (match n with Some r => Some r | None => o end) with
-  | None => None                                    (* "WHEN condition requires a row context" *)
-  | Some cur =>
-      match eval_cond (mkEnv (Some cur) (Some (o, n))) c with
-      | RBool (Some b) => Some b
-      | RBool None => Some false
-      | RNonBool _ => None                          (* "WHEN condition must evaluate to boolean" *)
-      | RErr => None
-      end
+  (* base row: NEW, else OLD, else an empty row (statement-level triggers) *)
+  let cur := match n with Some r => r | None => match o with Some r => r | None => [] end end in
+  match eval_cond (mkEnv (Some cur) (Some (o, n))) c with
+  | RBool (Some b) => Some b
+  | RBool None => Some false
+  | RNonBool _ => None                          (* "WHEN condition must evaluate to boolean" *)
+  | RErr => None
   end.
 
 (** one firing: the trigger whose body was started, with the row images it saw, and how the body ended:
